@@ -143,6 +143,25 @@ Fixpoint strip_delivered (l : list seg) (cnt bytes : Z) : list seg * Z * Z :=
   | [] => ([], cnt, bytes)
   end.
 
+(* phase 2 of remove_up_to_ack: selective acknowledgement *)
+Definition sack_phase (t : segments) (rest : list seg) (a1 : ack_acc) (snd_una1 now ack_nr : Z)
+  (sk : option sack) : list seg * ack_acc * Z * bool :=
+  let a0 := {| ac_rtt := ac_rtt a1; ac_maxp := ac_maxp a1; ac_cnt := 0; ac_bytes := 0 |} in
+  match rest, sk with
+  | _ :: _, Some k =>
+      if seq_gt snd_una1 ack_nr then
+        let sack_start := wadd16 ack_nr 2 in
+        let so := seq_sub sack_start snd_una1 in
+        let '(l', a') :=
+          if 0 <=? so then
+            let '(tl', a') := apply_sack (skipn (Z.to_nat so) rest) (sk_bits k) now a0 in
+            (firstn (Z.to_nat so) rest ++ tl', a')
+          else apply_sack rest (skipn (Z.to_nat (- so)) (sk_bits k)) now a0 in
+        (l', a', sk_len k, negb (existsb (fun b => b) (sk_bits k)))
+      else (rest, a0, ss_sack_depth t, ss_last_sack_empty t)
+  | _, _ => (rest, a0, ss_sack_depth t, ss_last_sack_empty t)
+  end.
+
 Definition remove_up_to_ack (t : segments) (now ack_nr : Z) (sk : option sack)
   : segments * on_ack_result :=
   let offset := seq_sub ack_nr (ss_snd_una t) in
@@ -153,24 +172,7 @@ Definition remove_up_to_ack (t : segments) (now ack_nr : Z) (sk : option sack)
   let a1 := drain_acc drained now {| ac_rtt := None; ac_maxp := 0; ac_cnt := 0; ac_bytes := 0 |} in
   let snd_una1 := wadd16 (ss_snd_una t) (Z.of_nat dc mod M16) in
   (* phase 2: selective *)
-  let '(rest2, a2, depth, lse) :=
-    match rest, sk with
-    | _ :: _, Some k =>
-        if seq_gt snd_una1 ack_nr then
-          let sack_start := wadd16 ack_nr 2 in
-          let so := seq_sub sack_start snd_una1 in
-          let a0 := {| ac_rtt := ac_rtt a1; ac_maxp := ac_maxp a1; ac_cnt := 0; ac_bytes := 0 |} in
-          let '(l', a') :=
-            if 0 <=? so then
-              let '(tl', a') := apply_sack (skipn (Z.to_nat so) rest) (sk_bits k) now a0 in
-              (firstn (Z.to_nat so) rest ++ tl', a')
-            else apply_sack rest (skipn (Z.to_nat (- so)) (sk_bits k)) now a0 in
-          (l', a', sk_len k, negb (existsb (fun b => b) (sk_bits k)))
-        else (rest, {| ac_rtt := ac_rtt a1; ac_maxp := ac_maxp a1; ac_cnt := 0; ac_bytes := 0 |},
-              ss_sack_depth t, ss_last_sack_empty t)
-    | _, _ => (rest, {| ac_rtt := ac_rtt a1; ac_maxp := ac_maxp a1; ac_cnt := 0; ac_bytes := 0 |},
-               ss_sack_depth t, ss_last_sack_empty t)
-    end in
+  let '(rest2, a2, depth, lse) := sack_phase t rest a1 snd_una1 now ack_nr sk in
   (* phase 3: strip delivered front *)
   let '(rest3, cnt3, bytes3) := strip_delivered rest2 0 0 in
   let removed := ac_cnt a1 + cnt3 in
